@@ -3,7 +3,11 @@ package main
 import (
 	"fmt"
 	"math"
+	"net"
+	"strings"
+	"time"
 
+	"github.com/pebbe/zmq4"
 	"github.com/usnistgov/dastard"
 )
 
@@ -43,6 +47,131 @@ func weirdF64(r *Rng) float64 {
 	}
 }
 
+// c14Record draws one record (extreme field values included) and the bit patterns of its coefficients.
+func c14Record(r *Rng, tier string) (dastard.VerifRecord, []uint64) {
+	var v dastard.VerifRecord
+	v.ChannelIndex = r.Pick(0, 1, 255, 256, 32767, 32768, 65535, r.Intn(65536))
+	v.Signed = r.Bool()
+	ln := r.Pick(0, 1, 2, 3, 10, 100, r.Intn(600))
+	if tier == "thorough" && r.Chance(1) {
+		ln = r.Range(10000, 70000)
+	}
+	v.Data = make([]dastard.RawType, ln)
+	for j := range v.Data {
+		v.Data[j] = dastard.RawType(r.Pick(0, 65535, 32767, 32768, r.Intn(65536)))
+	}
+	v.Presamples = r.Pick(0, 1, ln/4, ln, r.Intn(1<<20))
+	v.SampPeriod = math.Float32frombits(uint32(r.U64()))
+	v.VoltsPerArb = math.Float32frombits(uint32(r.U64()))
+	v.TrigFrame = extremeI64(r)
+	v.TrigTimeNs = extremeI64(r)
+	v.PretrigMean, v.PeakValue, v.PulseRMS, v.PulseAverage, v.ResidualStdDev = weirdF64(r), weirdF64(r), weirdF64(r), weirdF64(r), weirdF64(r)
+	nc := r.Pick(0, 0, 1, 3, 8, r.Intn(40))
+	v.ModelCoefs = make([]float64, nc)
+	coefBits := make([]uint64, nc)
+	for j := range v.ModelCoefs {
+		v.ModelCoefs[j] = weirdF64(r)
+		coefBits[j] = math.Float64bits(v.ModelCoefs[j])
+	}
+	return v, coefBits
+}
+
+// c14Line renders a record with the bytes the real message builders produce for it.
+func c14Line(v dastard.VerifRecord, coefBits []uint64) string {
+	rm := dastard.VerifMessageRecords(v)
+	sm := dastard.VerifMessageSummaries(v)
+	f32 := func(x float64) uint32 { return math.Float32bits(float32(x)) }
+	return fmt.Sprintf("ch %d signed %d npre %d data %s period %d vpa %d time %d frame %d sum %d %d %d %d %d coefs %s OUT rh %s rp %s sh %s sp %s",
+		v.ChannelIndex, b2i(v.Signed), v.Presamples, ints(v.Data), math.Float32bits(v.SampPeriod), math.Float32bits(v.VoltsPerArb),
+		v.TrigTimeNs, v.TrigFrame, f32(v.PretrigMean), f32(v.PeakValue), f32(v.PulseRMS), f32(v.PulseAverage), f32(v.ResidualStdDev),
+		ints(coefBits), hexs(rm[0]), hexs(rm[1]), hexs(sm[0]), hexs(sm[1]))
+}
+
+// c14Wire: batches of 1..4 records go through the REAL publisher goroutine (startSocket) and a ZMQ SUB
+// socket receives what is put on the wire: one message per record, in order, each with exactly the two
+// parts the message builder makes for that record.
+func c14Wire(r *Rng, tier string, o *Out, nbatch int) {
+	for _, summaries := range []bool{false, true} {
+		l, err := net.Listen("tcp", "127.0.0.1:0")
+		if err != nil {
+			panic(err)
+		}
+		port := l.Addr().(*net.TCPAddr).Port
+		l.Close()
+		send, stop, err := dastard.VerifStartSocket(port, summaries)
+		if err != nil {
+			panic(err)
+		}
+		sub, err := zmq4.NewSocket(zmq4.SUB)
+		if err != nil {
+			panic(err)
+		}
+		sub.SetSubscribe("")
+		sub.SetRcvtimeo(200 * time.Millisecond)
+		if err := sub.Connect(fmt.Sprintf("tcp://127.0.0.1:%d", port)); err != nil {
+			panic(err)
+		}
+		// slow joiner: publish single warm-up records until one arrives, then drain
+		warm, _ := c14Record(r, "quick")
+		joined := false
+		for k := 0; k < 100 && !joined; k++ {
+			send([]dastard.VerifRecord{warm})
+			if _, err := sub.RecvMessageBytes(0); err == nil {
+				joined = true
+			}
+		}
+		for {
+			if _, err := sub.RecvMessageBytes(0); err != nil {
+				break
+			}
+		}
+		sub.SetRcvtimeo(5 * time.Second)
+		for b := 0; b < nbatch && joined; b++ {
+			k := r.Pick(1, 2, 2, 3, 4)
+			recs := make([]dastard.VerifRecord, k)
+			var sb strings.Builder
+			fmt.Fprintf(&sb, "wire sum %d n %d", b2i(summaries), k)
+			for i := range recs {
+				var cb []uint64
+				recs[i], cb = c14Record(r, "quick")
+				sb.WriteString(" " + c14Line(recs[i], cb))
+			}
+			send(recs)
+			var msgs [][][]byte
+			for i := 0; i < k; i++ {
+				m, err := sub.RecvMessageBytes(0)
+				if err != nil {
+					break
+				}
+				msgs = append(msgs, m)
+			}
+			// anything beyond the expected messages (a duplicated or split message)
+			sub.SetRcvtimeo(30 * time.Millisecond)
+			for len(msgs) < 16 {
+				m, err := sub.RecvMessageBytes(0)
+				if err != nil {
+					break
+				}
+				msgs = append(msgs, m)
+			}
+			sub.SetRcvtimeo(5 * time.Second)
+			fmt.Fprintf(&sb, " WIRE %d", len(msgs))
+			for _, m := range msgs {
+				fmt.Fprintf(&sb, " %d", len(m))
+				for _, part := range m {
+					sb.WriteString(" " + hexs(part))
+				}
+			}
+			o.Case("%s", sb.String())
+		}
+		if !joined {
+			o.Case("wire sum %d n 0 WIRE-NOT-JOINED", b2i(summaries))
+		}
+		sub.Close()
+		stop()
+	}
+}
+
 // genC14 builds records, calls the real message builders, and writes the bytes.
 func genC14(r *Rng, tier string, o *Out) {
 	n := 1000
@@ -50,37 +179,12 @@ func genC14(r *Rng, tier string, o *Out) {
 		n = 40000
 	}
 	for i := 0; i < n; i++ {
-		var v dastard.VerifRecord
-		v.ChannelIndex = r.Pick(0, 1, 255, 256, 32767, 32768, 65535, r.Intn(65536))
-		v.Signed = r.Bool()
-		ln := r.Pick(0, 1, 2, 3, 10, 100, r.Intn(600))
-		if tier == "thorough" && r.Chance(1) {
-			ln = r.Range(10000, 70000)
-		}
-		v.Data = make([]dastard.RawType, ln)
-		for j := range v.Data {
-			v.Data[j] = dastard.RawType(r.Pick(0, 65535, 32767, 32768, r.Intn(65536)))
-		}
-		v.Presamples = r.Pick(0, 1, ln/4, ln, r.Intn(1<<20))
-		v.SampPeriod = math.Float32frombits(uint32(r.U64()))
-		v.VoltsPerArb = math.Float32frombits(uint32(r.U64()))
-		v.TrigFrame = extremeI64(r)
-		v.TrigTimeNs = extremeI64(r)
-		v.PretrigMean, v.PeakValue, v.PulseRMS, v.PulseAverage, v.ResidualStdDev = weirdF64(r), weirdF64(r), weirdF64(r), weirdF64(r), weirdF64(r)
-		nc := r.Pick(0, 0, 1, 3, 8, r.Intn(40))
-		v.ModelCoefs = make([]float64, nc)
-		coefBits := make([]uint64, nc)
-		for j := range v.ModelCoefs {
-			v.ModelCoefs[j] = weirdF64(r)
-			coefBits[j] = math.Float64bits(v.ModelCoefs[j])
-		}
-		rm := dastard.VerifMessageRecords(v)
-		sm := dastard.VerifMessageSummaries(v)
-		f32 := func(x float64) uint32 { return math.Float32bits(float32(x)) }
-		o.Case("ch %d signed %d npre %d data %s period %d vpa %d time %d frame %d sum %d %d %d %d %d coefs %s OUT rh %s rp %s sh %s sp %s",
-			v.ChannelIndex, b2i(v.Signed), v.Presamples, ints(v.Data), math.Float32bits(v.SampPeriod), math.Float32bits(v.VoltsPerArb),
-			v.TrigTimeNs, v.TrigFrame, f32(v.PretrigMean), f32(v.PeakValue), f32(v.PulseRMS), f32(v.PulseAverage), f32(v.ResidualStdDev),
-			ints(coefBits), hexs(rm[0]), hexs(rm[1]), hexs(sm[0]), hexs(sm[1]))
-		_ = fmt.Sprint
+		v, coefBits := c14Record(r, tier)
+		o.Case("%s", c14Line(v, coefBits))
 	}
+	nb := 25
+	if tier == "thorough" {
+		nb = 400
+	}
+	c14Wire(r, tier, o, nb)
 }
